@@ -203,8 +203,18 @@ func c13Case(c *core.Ctx, id string) {
 		}
 		dryEval := evaluatingSet(dry.Events)
 		// the real build from the same state
-		st, res, _ := e.Build(target, pj.BuildOpt{Failing: failing, Always: always})
+		// (a third of the time the real build follows one more dry run on the same loaded Project - a REPL session doing
+		// run(dry_run=True) and then run(): what that dry run predicted must be what the real run then attempts)
+		sameProject := r.IntN(3) == 0
+		st, res, _ := e.Build(target, pj.BuildOpt{Failing: failing, Always: always, DryFirst: sameProject})
 		realEval := evaluatingSet(res.Events)
+		if sameProject {
+			c.Count("real_builds_after_a_dry_run_on_the_same_project", 1)
+			if d2 := evaluatingSet(res.DryEvents); fmt.Sprint(d2) != fmt.Sprint(dryEval) {
+				viol("dry-run-prediction-differs-from-real-build", map[string]any{"target": target, "dry_on_a_fresh_load": dryEval, "dry_on_the_project_then_built": d2})
+				return
+			}
+		}
 		key := ""
 		if len(dryEval) > 0 {
 			key = fmt.Sprintf("%s/%d", id, step)
@@ -475,6 +485,13 @@ func c14Case(c *core.Ctx, id string) {
 			pj.Build(pj.BuildReq{Root: s.Root, Args: e.P.Args})
 		}
 		beforeRecs := pj.Records(s.Root)
+		if preferIndex && r.IntN(5) == 0 {
+			// the index as a process that died between creating and writing it leaves it: empty. An index-preferring load
+			// then has to fall back to a full load; a collection must not take "no index entries" for "no targets"
+			if os.WriteFile(filepath.Join(work, "index.json"), nil, 0o644) == nil {
+				c.Count("collections_on_an_empty_index_file", 1)
+			}
+		}
 		outside := pj.TreeHash(s.Root, func(rel string) bool { return rel == filepath.Join(".dawn", "build") })
 		gres := pj.Build(pj.BuildReq{Root: s.Root, GC: true, PreferIndex: preferIndex, Args: e.P.Args})
 		if gres.LoadErr != "" || gres.GCErr != "" {
